@@ -2,6 +2,7 @@
 # usage: tools/mutant.sh <file-in-repo> <python-expr: old|||new> <prop> [<prop>...]  -- applies a textual mutation, runs checks, always reverts
 f="$1"; e="$2"; shift 2
 cd /repo || exit 2
+git diff --quiet || { echo "/repo has uncommitted changes - commit them first"; exit 2; }
 python3 - "$f" "$e" <<'PY' || exit 2
 import sys
 f, e = sys.argv[1], sys.argv[2]
